@@ -27,7 +27,7 @@ func runC08(c *Ctx) {
 	runC08PerNodeShareRecomputed(c)
 	borrow(c, "O7", "C13", "O5", "Commit does not call Discard", "undoing already committed allocations fires the deallocate handlers: the queue and its ancestors are under-counted while the pods get bound")
 	borrow(c, "O9", "C13", "O8", "plugin handlers fire after the job and node were updated", "the queue counters are charged with the task's accepted resources, which the node update computes")
-	borrow(c, "O11", "C07", "O7", "createQueueResourceAttrs", "the limit and quota enforced for a resource are the ones configured for that resource")
+	borrow(c, "O11", "C07", "O7", "entry is tied to", "the limit and quota enforced for a resource are the ones configured for that resource")
 	borrow(c, "O12", "C01", "O9", "getPodResourceRequest", "the limit and quota checks and every queue's usage are computed from the pod request: it must be what Kubernetes reserves for the pod (max(containers, init) + overhead)")
 	borrow(c, "O16", "C01", "O11", "no BindRequest reported only when there is none or it failed for good", "a pod whose bind request is hidden from the snapshot (e.g. because it already succeeded while the pod update has not arrived) is a Pending pod on no node: its resources vanish from the running sums of its queue and all ancestors and the limit / quota guards admit other workloads above them")
 	borrow(c, "O8", "C03", "O5", "only active-allocated pods are eviction candidates", "evicting a pod that is already releasing subtracts resources from the queue that were never added")
@@ -441,32 +441,41 @@ func runC08(c *Ctx) {
 	// ---- O6: units — queue memory quota/limit are scaled by the API's unit (10^6 bytes)
 	if fn := c.Anchor("O6", pkgProportion, "proportionPlugin", "createQueueResourceAttrs"); fn != nil {
 		n := 0
-		for _, b := range fn.Blocks {
-			for _, in := range b.Instrs {
-				bo, ok := in.(*ssa.BinOp)
-				if !ok || bo.Op.String() != "*" {
-					continue
+		// (the conversion may live in a helper of createQueueResourceAttrs)
+		scaleFns := []*ssa.Function{fn}
+		for _, in := range instrsIn(fn, func(in ssa.Instruction) bool { _, ok := in.(ssa.CallInstruction); return ok }) {
+			if cal := in.(ssa.CallInstruction).Common().StaticCallee(); cal != nil && len(cal.Blocks) > 0 && relPkg(funcPkgPath(cal)) == pkgProportion {
+				scaleFns = append(scaleFns, cal)
+			}
+		}
+		for _, sfn := range scaleFns {
+			for _, b := range sfn.Blocks {
+				for _, in := range b.Instrs {
+					bo, ok := in.(*ssa.BinOp)
+					if !ok || bo.Op.String() != "*" {
+						continue
+					}
+					var k *ssa.Const
+					var other ssa.Value
+					if kk, ok := bo.Y.(*ssa.Const); ok {
+						k, other = kk, bo.X
+					} else if kk, ok := bo.X.(*ssa.Const); ok {
+						k, other = kk, bo.Y
+					}
+					if ot := termOf(other); k == nil || !strings.Contains(ot.String(), ".Memory.") || (ot.lastField() != "Quota" && ot.lastField() != "Limit") {
+						continue
+					}
+					n++
+					v, _ := constant.Float64Val(constant.ToFloat(k.Value))
+					c.Check(v == 1e6, "O6", "CONST", funcKey(fn)+": memory "+termOf(other).lastField()+" scaled by 10^6", instrPos(in), "1 API unit = 10^6 bytes (pkg/apis/scheduling/v2/resources.go)", fmt.Sprintf("queue memory %s is scaled by %v, the Queue API defines the unit as 10^6 bytes: every finite memory limit/quota is enforced at a different value than configured", termOf(other).lastField(), v))
 				}
-				var k *ssa.Const
-				var other ssa.Value
-				if kk, ok := bo.Y.(*ssa.Const); ok {
-					k, other = kk, bo.X
-				} else if kk, ok := bo.X.(*ssa.Const); ok {
-					k, other = kk, bo.Y
-				}
-				if k == nil || !strings.Contains(termOf(other).String(), ".Resources.Memory") {
-					continue
-				}
-				n++
-				v, _ := constant.Float64Val(constant.ToFloat(k.Value))
-				c.Check(v == 1e6, "O6", "CONST", funcKey(fn)+": memory "+termOf(other).lastField()+" scaled by 10^6", instrPos(in), "1 API unit = 10^6 bytes (pkg/apis/scheduling/v2/resources.go)", fmt.Sprintf("queue memory %s is scaled by %v, the Queue API defines the unit as 10^6 bytes: every finite memory limit/quota is enforced at a different value than configured", termOf(other).lastField(), v))
 			}
 		}
 		c.Floor("O6", "CONST memory scalings", n, 2)
 		// … and BOTH memory quantities handed to the queue's attributes are scaled ones (quota and limit): pod requests,
 		// node memory and the queue counters are in bytes
 		ns := 0
-		for _, in := range instrsIn(fn, func(in ssa.Instruction) bool {
+		for _, dh := range p.deepFind(fn, func(in ssa.Instruction) bool {
 			cc, ok := in.(*ssa.Call)
 			if !ok {
 				return false
@@ -477,7 +486,8 @@ func runC08(c *Ctx) {
 				}
 			}
 			return false
-		}) {
+		}, 1) {
+			in := dh.In
 			call := in.(*ssa.Call)
 			for _, a := range call.Call.Args {
 				t := termOf(a)
